@@ -38,6 +38,29 @@ pub enum Msg {
 #[derive(Clone, Debug, Serialize, Deserialize)]
 pub struct Case {
     pub msgs: Vec<Msg>,
+    /// which client the simulated editor pretends to be (capabilities sent with initialize)
+    #[serde(default)]
+    pub caps: u8,
+}
+
+fn client_capabilities(caps: u8) -> Value {
+    match caps {
+        0 => json!({}),
+        1 => json!({"general": {"positionEncodings": ["utf-16"]}}),
+        // editors that *offer* other encodings: unless the server's reply announces one of them,
+        // positions stay UTF-16
+        2 => json!({"general": {"positionEncodings": ["utf-8", "utf-16"]}}),
+        3 => json!({"general": {"positionEncodings": ["utf-32", "utf-8", "utf-16"]}}),
+        _ => json!({
+            "general": {"positionEncodings": ["utf-16"], "staleRequestSupport": {"cancel": true, "retryOnContentModified": []}},
+            "textDocument": {
+                "synchronization": {"dynamicRegistration": true, "willSave": true, "didSave": true},
+                "publishDiagnostics": {"relatedInformation": true, "versionSupport": false, "tagSupport": {"valueSet": [1, 2]}},
+                "semanticTokens": {"dynamicRegistration": true, "requests": {"range": true, "full": {"delta": true}}, "tokenTypes": ["keyword", "variable", "number", "string", "comment", "operator"], "tokenModifiers": [], "formats": ["relative"]}
+            },
+            "window": {"workDoneProgress": true}
+        }),
+    }
 }
 
 fn uri(k: u8) -> String {
@@ -56,6 +79,7 @@ struct Server {
     rx: Receiver<Result<Value, String>>,
     next_id: i64,
     legend_len: usize,
+    announced_encoding: Option<String>,
 }
 
 fn lsp_bin() -> String {
@@ -63,7 +87,7 @@ fn lsp_bin() -> String {
 }
 
 impl Server {
-    fn start() -> Result<Server, String> {
+    fn start(caps: u8) -> Result<Server, String> {
         let mut child = Command::new(lsp_bin())
             .stdin(Stdio::piped())
             .stdout(Stdio::piped())
@@ -127,12 +151,14 @@ impl Server {
             rx,
             next_id: 1,
             legend_len: 0,
+            announced_encoding: None,
         };
         // initialize / initialized
         let id = s.next_id;
         s.next_id += 1;
-        s.send(&json!({"jsonrpc":"2.0","id":id,"method":"initialize","params":{"processId":null,"rootUri":null,"capabilities":{}}}))?;
+        s.send(&json!({"jsonrpc":"2.0","id":id,"method":"initialize","params":{"processId":null,"rootUri":null,"capabilities":client_capabilities(caps)}}))?;
         let resp = s.recv()?;
+        s.announced_encoding = resp["result"]["capabilities"]["positionEncoding"].as_str().map(|x| x.to_string());
         s.legend_len = resp["result"]["capabilities"]["semanticTokensProvider"]["legend"]["tokenTypes"]
             .as_array()
             .map(|a| a.len())
@@ -429,10 +455,17 @@ fn did_change(u: &str, text: &str) -> Value {
 
 fn session(c: &Case, ctx: &mut Ctx) -> Option<Violation> {
     let v = |class: &str, fp: String, detail: String| Some(Violation::new(&format!("C20/{class}"), fp, detail));
-    let mut s = match Server::start() {
+    let mut s = match Server::start(c.caps) {
         Ok(s) => s,
         Err(e) => return v("harness", "server start".into(), e),
     };
+    if s.announced_encoding.as_deref().map(|e| e != "utf-16").unwrap_or(false) {
+        // a server that negotiates another encoding in its reply is within the protocol; this harness
+        // measures UTF-16 only and gives no verdict on such a session
+        ctx.count("reach.server_announced_another_position_encoding");
+        return None;
+    }
+    ctx.count(&format!("reach.client_capabilities.{}", c.caps));
     let mut docs: std::collections::HashMap<u8, String> = std::collections::HashMap::new();
     let died = |s: &mut Server, what: &str, text: Option<&str>, e: String| -> Option<Violation> {
         let st = s.exit_status();
@@ -603,7 +636,7 @@ fn edit_text(rng: &mut Rng, text: &str) -> String {
             let l = &mut lines[li];
             let chars: Vec<char> = l.chars().collect();
             let at = rng.usize(chars.len() + 1);
-            let ins = rng.pick(&["\"", "(", ")", " ", "1", "A", "é", "日", "💥", "%", ":", ",", "=", "\t"]);
+            let ins = rng.pick(&["\"", "(", ")", " ", "1", "A", "é", "日", "💥", "%", ":", ",", "=", "\t", "\u{feff}"]);
             *l = chars[..at].iter().collect::<String>() + ins + &chars[at..].iter().collect::<String>();
         }
         1 => {
@@ -668,7 +701,13 @@ fn initial_text(rng: &mut Rng) -> String {
     k.max_lines = 2 + rng.usize(12);
     let mut grng = rng.fork();
     let (prog, _) = Gen::new(&mut grng, k).program();
-    prog.iter().map(print_line).collect::<Vec<_>>().join("\n")
+    let text = prog.iter().map(print_line).collect::<Vec<_>>().join("\n");
+    // files saved by some editors start with a byte order mark: it is part of the text the client sends
+    if rng.chance(1, 12) {
+        format!("{}{}", '\u{feff}', text)
+    } else {
+        text
+    }
 }
 
 impl Prop for C20 {
@@ -773,7 +812,7 @@ impl Prop for C20 {
             };
             msgs.push(m);
         }
-        Case { msgs }
+        Case { msgs, caps: if rng.chance(1, 2) { 0 } else { 1 + rng.below(4) as u8 } }
     }
 
     fn dangerous(c: &Case) -> bool {
@@ -790,7 +829,7 @@ impl Prop for C20 {
     }
 
     fn shrink(c: &Case) -> Vec<Case> {
-        let mut out: Vec<Case> = shrink_vec(&c.msgs).into_iter().map(|msgs| Case { msgs }).collect();
+        let mut out: Vec<Case> = shrink_vec(&c.msgs).into_iter().map(|msgs| Case { msgs, caps: c.caps }).collect();
         for (i, m) in c.msgs.iter().enumerate() {
             let shrink_doc = |t: &str| -> Vec<String> {
                 let lines: Vec<String> = t.split('\n').map(|s| s.to_string()).collect();
@@ -809,14 +848,14 @@ impl Prop for C20 {
                     for t2 in shrink_doc(t) {
                         let mut msgs = c.msgs.clone();
                         msgs[i] = Msg::Open(*k, t2);
-                        out.push(Case { msgs });
+                        out.push(Case { msgs, caps: c.caps });
                     }
                 }
                 Msg::Change(k, t) => {
                     for t2 in shrink_doc(t) {
                         let mut msgs = c.msgs.clone();
                         msgs[i] = Msg::Change(*k, t2);
-                        out.push(Case { msgs });
+                        out.push(Case { msgs, caps: c.caps });
                     }
                 }
                 Msg::Pipeline(k, ts) => {
@@ -824,13 +863,13 @@ impl Prop for C20 {
                         if !ts2.is_empty() {
                             let mut msgs = c.msgs.clone();
                             msgs[i] = Msg::Pipeline(*k, ts2);
-                            out.push(Case { msgs });
+                            out.push(Case { msgs, caps: c.caps });
                         }
                     }
                     if let Some(last) = ts.last() {
                         let mut msgs = c.msgs.clone();
                         msgs[i] = Msg::Change(*k, last.clone());
-                        out.push(Case { msgs });
+                        out.push(Case { msgs, caps: c.caps });
                     }
                 }
                 _ => {}
